@@ -38,6 +38,10 @@ CLAIMED = {
          'PARTIAL. Proved for every document, path of the grammar (13 axes, name/kind tests, positional/last()/existence/not() predicates, nested relative paths) and context: results are strictly increasing in document order (each node once), E1/E2 selects exactly the nodes E2 selects from the nodes of E1, [n] on a reverse axis counts backwards. The axes are an executable XDM specification, not a separate model of the context iterators: they are validated against the implementation exhaustively on trees <= 4 nodes x every axis x every context node and on random trees/paths (and against libxml2, 0 disagreements); three iterator deviations on non-element context nodes are modelled (axis_nodes_impl) and listed as a known finding. Functions inside predicates are outside the model.',
          'Trusted: Coq kernel; C01/Model.v as the reading of the XDM; harness tree construction and node identity mapping; lxml/libxml2 as cross-check only. No axioms.',
          'DESIGN.md §6 C01'),
+ 'C14': ('Coq proof on rose trees: the structured path of a node (own test + position among matching siblings) evaluates to exactly that node, and paths are injective; correspondence of node.path / fn:path / etree_iter_paths strings with the model and evaluation of every string back on the implementation',
+         'For every tree and every element / text / comment / PI node: eval (path_of n) = [n] and distinct nodes have distinct paths (induction over the index path, k-th matching sibling lemma). The pre-fix counting rule is refuted by a kernel-checked witness (fixed in /repo). The string level (Q{ns}local[n] formatting, the 3.0/3.1 parser, attribute / namespace / document node paths, fragment prefix) is correspondence: every node of every generated tree, both libraries, document and element roots. PI targets that are keywords / pi cannot be parsed back: known finding.',
+         'Trusted: Coq kernel; harness formatting of steps and node identity mapping; C01 for the meaning of child::test[n]. No axioms.',
+         'DESIGN.md §6 C14'),
 }
 
 NOT_YET = {}
